@@ -25,7 +25,8 @@ EXPLANATION = (
     'symmetric-reflection coverage; the energy/log/power dataflow is decided as term equalities with symbolic flags.')
 BOUNDS = {
     'quick': 'pairing: D in 2..17 and {32, 64} with the frame lengths the constructor yields (L = D; D - 1 under padding), any start bin 0<=start<D and 1<=len<=D (complex) / start+len<=D//2+1 (real); '
-             'coverage: (L,S) grid as C01, N <= 3L; dataflow: all flag combinations (symbolic booleans)',
+             'coverage: (L,S) grid as C01 plus causal+kaldi_shift at (5,2) (7,3) and frame shifts beyond the frame length (2,6) (3,7) (3,4), N <= 3L; dataflow: all flag combinations (symbolic booleans); '
+             'constructor: frame_style in {None, centered, causal} with symbolic is_zero_phase and kaldi_shift',
     'thorough': 'pairing: D in 2..40 and {64,127,128,255,256,512}; coverage: L<=9 grid, N <= 4L',
 }
 OUTSIDE = ['numerical value of the FFT', 'window values (C20)', 'floating-point round-off',
